@@ -24,7 +24,13 @@ func init() {
 func mwFunc(c *Check, rel, name string) *ssa.Function { return c.P.Func(rel, name) }
 
 func runC19(c *Check) {
-	P := "C19"
+	LostReceiverStores(c, "C19.CFG", "message/router/middleware")
+	DefaultsApplied(c, "C19.CFG", "message/router/middleware")
+	c19All(c, "C19")
+}
+
+// c19All holds the C19 obligations (also decided under C01, see c12All).
+func c19All(c *Check, P string) {
 	const rel = "message/router/middleware"
 	type entry struct {
 		name  string
@@ -57,6 +63,7 @@ func runC19(c *Check) {
 		}
 		c19Transparent(c, P, e.name, m)
 		c19ContextRestored(c, P, e.name, m)
+		c19MessageUntouched(c, P, e.name, m)
 		switch e.name {
 		case "Timeout":
 			c19Timeout(c, P, m)
@@ -81,6 +88,58 @@ func runC19(c *Check) {
 			c19Delay(c, P, m)
 		}
 	}
+}
+
+// c19MessageUntouched: besides its documented effect a middleware leaves the consumed message as it is: the closure
+// itself writes no metadata entry, payload or UUID of the consumed message (DelayOnError: only on the failure edge).
+func c19MessageUntouched(c *Check, P, name string, m *MW) {
+	I := m.Inner
+	isMeta := func(v ssa.Value) bool {
+		return AnyOrigin(v, func(o ssa.Value) bool {
+			u, ok := o.(*ssa.UnOp)
+			if !ok || u.Op != token.MUL {
+				return false
+			}
+			f, base := FieldOf(u.X)
+			return f != nil && f.Name() == "Metadata" && base != nil && m.IsMsg(base)
+		})
+	}
+	var writes []ssa.Instruction
+	AllInstrs(I, func(in ssa.Instruction) {
+		switch x := in.(type) {
+		case *ssa.MapUpdate:
+			if isMeta(x.Map) {
+				writes = append(writes, in)
+			}
+		case *ssa.Store:
+			if f, base := FieldOf(x.Addr); f != nil && base != nil && m.IsMsg(base) && (f.Name() == "Metadata" || f.Name() == "Payload" || f.Name() == "UUID") {
+				writes = append(writes, in)
+			}
+		case ssa.CallInstruction:
+			if args, ok := IsBuiltinCall(valueOfCall(x), "delete"); ok && len(args) > 0 && isMeta(args[0]) {
+				writes = append(writes, in)
+			}
+			if CalleeName(x) == nMetaSet && isMeta(Receiver(x)) {
+				writes = append(writes, in)
+			}
+		}
+	})
+	var fail []Edge
+	if name == "DelayOnError" {
+		_, fail = NilEdges(I, ResultOfAny(m.HCalls, 1))
+	}
+	for _, w := range writes {
+		c.Report(len(fail) > 0 && GuardedBy(I, w, fail), P+".O1", "CONSUMED-MESSAGE-UNTOUCHED", I, w.Pos(), name+": write to the consumed message", "the middleware does not edit the consumed message (metadata, payload, UUID) outside its documented effect — successes pass through untouched")
+	}
+	c.Report(true, P+".O1", "CONSUMED-MESSAGE-WRITES-SCANNED", I, I.Pos(), name, fmt.Sprintf("%d direct writes to the consumed message examined", len(writes)))
+}
+
+// valueOfCall gives the call as a value when it is one (builtin calls used as statements are *ssa.Call too).
+func valueOfCall(c ssa.CallInstruction) ssa.Value {
+	if v, ok := c.(*ssa.Call); ok {
+		return v
+	}
+	return nil
 }
 
 // c19Transparent: O1.
@@ -190,7 +249,14 @@ func c19RecovererValue(c *Check, P string, m *MW, e ssa.Value, r *ssa.Return, k 
 		return
 	}
 	isRec := func(v ssa.Value) bool { return v == CallValue(recs[0]) }
-	c.Report(Wraps(e, isRec), P+".O1", "PANIC-VALUE-KEPT", dcl, e.Pos(), k, "the replacement error carries recover()'s value")
+	keeps := func(cl *ssa.Call) bool {
+		switch CalleeName(cl) {
+		case "github.com/pkg/errors.WithStack", "github.com/pkg/errors.Wrap", "github.com/pkg/errors.Wrapf", "github.com/pkg/errors.WithMessage", "github.com/pkg/errors.WithMessagef", "errors.Join":
+			return true
+		}
+		return false
+	}
+	c.Report(WrapsThrough(e, isRec, keeps), P+".O1", "PANIC-VALUE-KEPT", dcl, e.Pos(), k, "the replacement error carries recover()'s value itself (in a field of the error, possibly wrapped) — not a rendering of it")
 	errCell := ResultCell(I, 1)
 	_, recNonNil := NilEdges(dcl, isRec)
 	// flag set true before the call and false only after it returned
@@ -602,22 +668,27 @@ func c19Delay(c *Check, P string, m *MW) {
 	})
 	// For() arguments
 	fors := CallsTo(H, delayPkg+".For")
-	if !c.Floor(P+".O4", "DelayOnError: delay.For calls (first failure, later failures)", len(fors), 2) {
+	if !c.Floor(P+".O4", "DelayOnError: delay.For calls (first failure, later failures)", len(fors), 1) {
 		return
 	}
 	isMax := func(v ssa.Value) bool { return exportedFieldLoad("MaxInterval")(v) }
 	isInit := func(v ssa.Value) bool { return exportedFieldLoad("InitialInterval")(v) }
 	nInit, nGrow := 0, 0
 	for _, f := range fors {
-		os := Origins(f.Common().Args[0])
-		allInit := len(os) > 0
-		for _, o := range os {
-			if !isInit(o) {
-				allInit = false
+		// one call per case, or one call whose argument is chosen before (InitialInterval on one path, the grown delay on the other)
+		var os []ssa.Value
+		hasInit := false
+		for _, o := range Origins(f.Common().Args[0]) {
+			if isInit(o) {
+				hasInit = true
+			} else {
+				os = append(os, o)
 			}
 		}
-		if allInit {
+		if hasInit {
 			nInit++
+		}
+		if len(os) == 0 {
 			continue
 		}
 		okSet := true
@@ -634,8 +705,26 @@ func c19Delay(c *Check, P string, m *MW) {
 		}
 		// cap: test product > MaxInterval, MaxInterval chosen on its true edge
 		okCap := false
-		if phi, isPhi := f.Common().Args[0].(*ssa.Phi); isPhi && hasProd && hasMax {
-			for _, t := range Tests(H) {
+		var phi *ssa.Phi
+		AnyOrigin(f.Common().Args[0], func(o ssa.Value) bool {
+			if p, isPhi := o.(*ssa.Phi); isPhi && phi == nil {
+				np, nm := 0, 0
+				for _, e := range p.Edges {
+					if product != nil && AllOrigins(e, func(x ssa.Value) bool { return x == product }) {
+						np++
+					} else if AllOrigins(e, isMax) {
+						nm++
+					}
+				}
+				if np > 0 && nm > 0 && np+nm == len(p.Edges) {
+					phi = p
+				}
+			}
+			return false
+		})
+		if phi != nil && hasProd && hasMax {
+			PH := phi.Parent()
+			for _, t := range Tests(PH) {
 				if !(t.Op == token.GTR && t.X == product && AllOrigins(t.Y, isMax)) && !(t.Op == token.GEQ && t.X == product && AllOrigins(t.Y, isMax)) {
 					continue
 				}
@@ -644,10 +733,10 @@ func c19Delay(c *Check, P string, m *MW) {
 					pred := phi.Block().Preds[i]
 					term := pred.Instrs[len(pred.Instrs)-1]
 					if AllOrigins(e, isMax) {
-						if !GuardedBy(H, term, []Edge{t.True}) {
+						if !GuardedBy(PH, term, []Edge{t.True}) {
 							okCap = false
 						}
-					} else if GuardedBy(H, term, []Edge{t.True}) {
+					} else if GuardedBy(PH, term, []Edge{t.True}) {
 						okCap = false
 					}
 				}
